@@ -19,7 +19,7 @@ package merkletrie
 // Streams: (1) EXHAUSTIVE op sequences up to a length bound over a small universe of 3-byte
 // keys with shared prefixes, once per page configuration class; (2) random long sequences over
 // random 32-byte keys (a few of them forced to share long prefixes) with random page
-// configurations; (3) a malformed stream (wrong element lengths, empty keys).
+// configurations; (2b) commit/evict/reload cycles with branch-local changes; (3) a malformed stream (wrong element lengths, empty keys).
 
 import (
 	"errors"
@@ -179,9 +179,10 @@ func vC17Shape(mt *Trie) (res interface{}) {
 	return walk(mt.root)
 }
 
-// vC17LastPageDropped reports the precondition of finding "evict_drops_partial_last_page":
+// vC17LastPageDropped reports the precondition of finding "evict_drops_partial_last_page"
+// (fixed by fixes/C17.patch); it is evaluated right after every Evict call:
 // the page that the next node id falls into already holds committed nodes, is not in the cache
-// (Evict released it) and is not scheduled for the deferred load that MakeTrie arranges.
+// (Evict released it) and is not scheduled for the deferred load.
 func vC17LastPageDropped(mt *Trie, committer *InMemoryCommitter) bool {
 	npp := mt.cache.nodesPerPage
 	if int64(mt.nextNodeID)%npp == 0 {
@@ -257,7 +258,7 @@ func vC17Run(out *vOut, st *vC17Stats, cfg MemoryConfig, ops []vC17Op, hashing b
 				st.panics++
 			}
 		}
-		dropped = dropped || vC17LastPageDropped(mt, committer)
+		dropped = dropped || (o.kind == 'e' && vC17LastPageDropped(mt, committer))
 		if s, isSym := ob.(vSym); isSym && (s == "panic" || s == "ioerr") {
 			broken = true
 			break // the trie may be inconsistent after a panic / storage error: stop here
@@ -405,6 +406,63 @@ func TestVerifC17(t *testing.T) {
 		vC17Run(out, st, cfg, ops, i%hashEvery == 0)
 	}
 
+	// ---- (2b) commit / evict / reload cycles: a few changes, then a storage transition, repeated; the
+	// changes of one cycle mostly stay in one branch, so that pages written by earlier commits are
+	// rewritten / re-packed / reloaded while most of their nodes are not touched
+	nCyc := vEnvInt("VERIF_C17_CYCLES", 1500)
+	for i := 0; i < nCyc; i++ {
+		cfg := vC17Cfgs[rnd.Intn(5)]
+		if rnd.Intn(3) == 0 {
+			cfg = MemoryConfig{NodesCountPerPage: int64(2 + rnd.Intn(12)), CachedNodesCount: rnd.Intn(8),
+				PageFillFactor: float32(rnd.Intn(101)) / 100, MaxChildrenPagesThreshold: uint64(1 + rnd.Intn(4))}
+		}
+		klen := 3
+		if i%4 == 3 {
+			klen = 32
+		}
+		pool := make([][]byte, 6+rnd.Intn(10))
+		for j := range pool {
+			pool[j] = rnd.Bytes(klen)
+			pool[j][0] = byte(rnd.Intn(4))
+			if klen == 3 {
+				pool[j][1] = byte(rnd.Intn(2))
+				pool[j][2] = byte(rnd.Intn(3))
+			}
+		}
+		var ops []vC17Op
+		for c, nc := 0, 2+rnd.Intn(6); c < nc; c++ {
+			branch := byte(rnd.Intn(4))
+			for j, nj := 0, 1+rnd.Intn(4); j < nj; j++ {
+				k := pool[rnd.Intn(len(pool))]
+				if rnd.Intn(4) != 0 { // stay in the cycle's branch
+					for t := 0; t < 8 && k[0] != branch; t++ {
+						k = pool[rnd.Intn(len(pool))]
+					}
+				}
+				if rnd.Intn(10) < 7 {
+					ops = append(ops, vC17Op{kind: 'a', key: k})
+				} else {
+					ops = append(ops, vC17Op{kind: 'd', key: k})
+				}
+			}
+			switch rnd.Intn(6) {
+			case 0:
+				ops = append(ops, vC17Op{kind: 'c'})
+			case 1:
+				ops = append(ops, vC17Op{kind: 'e', flag: true})
+			case 2:
+				ops = append(ops, vC17Op{kind: 'c'}, vC17Op{kind: 'e', flag: false})
+			case 3:
+				ops = append(ops, vC17Op{kind: 'c'}, vC17Op{kind: 'r'})
+			case 4:
+				ops = append(ops, vC17Op{kind: 'h'}, vC17Op{kind: 'r'})
+			default:
+				ops = append(ops, vC17Op{kind: 'e', flag: true}, vC17Op{kind: 'r'})
+			}
+		}
+		vC17Run(out, st, cfg, ops, i%(4*hashEvery) == 0)
+	}
+
 	// ---- (3) malformed: wrong element lengths, empty elements
 	nBad := vEnvInt("VERIF_C17_MALFORMED", 200)
 	for i := 0; i < nBad; i++ {
@@ -433,7 +491,7 @@ func TestVerifC17(t *testing.T) {
 	vStats(map[string]interface{}{
 		"cases": st.cases, "ops": st.ops, "exhaustive_sequences": exhaustive,
 		"exhaustive_universe_keys": nk, "exhaustive_max_len": maxLen, "alphabet": len(alphabet),
-		"random_sequences": nRand, "malformed_sequences": nBad, "hashing_cases": st.hashing,
+		"random_sequences": nRand, "commit_evict_reload_cycle_sequences": nCyc, "malformed_sequences": nBad, "hashing_cases": st.hashing,
 		"ops_by_kind": st.byKind, "cases_by_config": st.byCfg, "final_set_size": st.finalSize,
 		"length_errors_and_evict_refusals": st.errs, "add_true": st.addTrue, "add_false": st.addFalse,
 		"delete_true": st.delTrue, "panics": st.panics, "cases_where_evict_dropped_partial_last_page": st.dropped,
